@@ -61,7 +61,7 @@ func genSpec(r *lib.Rng, shape string, withFail bool) (*e2e.Spec, []string) {
 	if shape == "chain" {
 		nt = r.Range(3, 5)
 	}
-	sleeps := []string{"0.05", "0.1", "0.15", "0.2"}
+	sleeps := []string{"0.05", "0.1", "0.15"}
 	failAt := -1
 	if withFail {
 		failAt = r.Intn(nt)
@@ -169,7 +169,7 @@ func closureOf(s *e2e.Spec, req []string) map[string]bool {
 func genScenario(r *lib.Rng, idx int) scenario {
 	shapes := []string{"random", "chain", "same-target", "all", "shared-filegroup", "warm", "random", "random"}
 	shape := shapes[idx%len(shapes)]
-	withFail := idx%8 == 7
+	withFail := idx%10 == 7
 	if withFail {
 		shape = "random"
 	}
@@ -597,8 +597,8 @@ func main() {
 			return
 		}
 
-		n := c.Scale(16, 400)
-		workers := 6
+		n := c.Scale(10, 400)
+		workers := 8
 		scs := make([]scenario, n)
 		for i := range scs {
 			scs[i] = genScenario(c.Rng.Fork(), i)
